@@ -92,6 +92,10 @@ pub fn run_case(line: &str) -> String {
     out.join(" ")
 }
 
+pub fn special(name: &str, args: &[String]) -> bool {
+    if name == "c14-race" { race(args); true } else { false }
+}
+
 /// c14-race <threads> <per-thread>: concurrent register() calls; prints
 /// "ok <n>" if all returned ids are distinct, else "dup <id>".
 pub fn race(args: &[String]) {
